@@ -81,7 +81,7 @@ def _has_load_dependencies(
 ) -> bool:
     for block in TealBlock.Iterate(start):
         for i, op in enumerate(block.ops):
-            if block == cur_block and i == pos:
+            if block is cur_block and i == pos:
                 continue
 
             if type(op) is TealOp and op.op == Op.load and slot in set(op.getSlots()):
